@@ -582,7 +582,8 @@ QXmppTask<QXmppMixManager::ChannelNodeResult> QXmppMixManager::requestChannelNod
 QXmppTask<QXmppMixManager::ConfigurationResult> QXmppMixManager::requestChannelConfiguration(const QString &channelJid)
 {
     return chainMapSuccess(d->pubSubManager->requestItems<QXmppMixConfigItem>(channelJid, ns_mix_node_config.toString()), this, [](QXmppPubSubManager::Items<QXmppMixConfigItem> &&items) {
-        return items.items.takeFirst();
+        // the node may be answered without any item
+        return items.items.isEmpty() ? QXmppMixConfigItem() : items.items.takeFirst();
     });
 }
 
@@ -623,7 +624,8 @@ QXmppTask<QXmppClient::EmptyResult> QXmppMixManager::updateChannelConfiguration(
 QXmppTask<QXmppMixManager::InformationResult> QXmppMixManager::requestChannelInformation(const QString &channelJid)
 {
     return chainMapSuccess(d->pubSubManager->requestItems<QXmppMixInfoItem>(channelJid, ns_mix_node_info.toString()), this, [](QXmppPubSubManager::Items<QXmppMixInfoItem> &&items) {
-        return items.items.takeFirst();
+        // the node may be answered without any item
+        return items.items.isEmpty() ? QXmppMixInfoItem() : items.items.takeFirst();
     });
 }
 
